@@ -169,3 +169,97 @@ func VerifC12_PatchPodBatchLabel() {
 		verifrt.Assert(!hasBatch || len(cli.Log) > 0 && false, "C12.repeat.changesNothing")
 	}
 }
+
+// VerifC12_PlannedIncrements: the per-batch label budgets are the increments the plan adds (up to 3 batches,
+// symbolic sizes): budget(i) = clamp(plan i) - clamp(plan i-1) for i <= currentBatch, 0 beyond; they sum to the
+// current batch's planned size.
+func VerifC12_PlannedIncrements() {
+	nb := verifrt.Concrete(verifrt.IntRange("nBatches", 1, 3))
+	R := verifrt.IntRange("R", 0, 100000)
+	var batches []v1beta1.ReleaseBatch
+	var ref []int
+	for i := 0; i < nb; i++ {
+		n := verifrt.IntRange("batch", 0, 200000)
+		batches = append(batches, v1beta1.ReleaseBatch{CanaryReplicas: intstr.FromInt(n)})
+		if n > R {
+			n = R
+		}
+		ref = append(ref, n)
+	}
+	cur := verifrt.Concrete(verifrt.IntRange("currentBatch", 0, nb-1))
+	r := &realPatcher{logKey: klog.ObjectRef{Namespace: "ns", Name: "br"}, batches: batches}
+	got := r.calculatePlannedStepIncrements(batches, R, cur)
+	verifrt.Assert(len(got) == nb, "C12.increments.length")
+	if len(got) != nb {
+		return
+	}
+	sum := 0
+	for i := 0; i < nb; i++ {
+		want := 0
+		if i <= cur {
+			want = ref[i]
+			if i > 0 {
+				want -= ref[i-1]
+			}
+		}
+		verifrt.Assert(got[i] == want, "C12.increments.equalPlanIncrement")
+		sum += got[i]
+	}
+	verifrt.Assert(sum == ref[cur], "C12.increments.sumToCurrentBatchPlan")
+	verifrt.Cover("done")
+}
+
+// VerifC12_UnorderedFilterKeepsLabelledPods: the rollback filter may drop unlabelled no-need-update pods, but every
+// live new-revision pod that already carries this release's rollout-id stays visible to the patcher (otherwise its
+// batch budget would be spent twice), and it never invents or duplicates pods.
+func VerifC12_UnorderedFilterKeepsLabelledPods() {
+	np := verifrt.Concrete(verifrt.IntRange("nPods", 1, 3))
+	var list []*corev1.Pod
+	for i := 0; i < np; i++ {
+		p := &corev1.Pod{ObjectMeta: metav1.ObjectMeta{Namespace: "ns", Name: "pod-" + strconv.Itoa(i), Labels: map[string]string{}}}
+		if verifrt.Bool("pod.newRevision") {
+			p.Labels[apps.ControllerRevisionHashLabelKey] = c12Revision
+		} else {
+			p.Labels[apps.ControllerRevisionHashLabelKey] = "rev-old"
+		}
+		if verifrt.Bool("pod.noNeedUpdate") {
+			p.Labels["rollouts.kruise.io/no-need-update"] = c12RolloutID
+		}
+		if verifrt.Bool("pod.labelled") {
+			p.Labels[v1beta1.RolloutIDLabel] = c12RolloutID
+			p.Labels[v1beta1.RolloutBatchIDLabel] = "1"
+		}
+		if verifrt.Bool("pod.terminating") {
+			now := metav1.Now()
+			p.DeletionTimestamp = &now
+		}
+		list = append(list, p)
+	}
+	ctx := &batchcontext.BatchContext{RolloutID: c12RolloutID, UpdateRevision: c12Revision}
+	ctx.DesiredUpdatedReplicas = int32(verifrt.IntRange("desired", 0, 5))
+	ctx.PlannedUpdatedReplicas = int32(verifrt.IntRange("planned", 0, 5))
+	in := append([]*corev1.Pod(nil), list...)
+	out := FilterPodsForUnorderedUpdate(list, ctx)
+	for _, p := range in {
+		cnt := 0
+		for _, q := range out {
+			if q == p {
+				cnt++
+			}
+		}
+		verifrt.Assert(cnt <= 1, "C12.filter.noDuplicates")
+		if p.DeletionTimestamp == nil && p.Labels[apps.ControllerRevisionHashLabelKey] == c12Revision && p.Labels[v1beta1.RolloutIDLabel] == c12RolloutID {
+			verifrt.Assert(cnt == 1, "C12.filter.keepsPodsAlreadyLabelledForThisRelease")
+		}
+	}
+	for _, q := range out {
+		found := false
+		for _, p := range in {
+			if p == q {
+				found = true
+			}
+		}
+		verifrt.Assert(found, "C12.filter.onlyInputPods")
+	}
+	verifrt.Cover("done")
+}
